@@ -97,6 +97,7 @@ def run(tier, seed, out, drv, facts):
     import jax
 
     rng = Rng(seed, "C03")
+    while_another_thread_checks(out)
     rows = ROWS if ROWS is not None else envrows.run()
     cats = {n: getattr(jaxtyping, n) for n in EXPORTED if hasattr(jaxtyping, n)}
     missing = [n for n in EXPORTED if n not in cats]
@@ -253,9 +254,88 @@ def run(tier, seed, out, drv, facts):
                 out.violation(f"user-category:{'accept' if want else 'reject'}", f"user category with dtypes={dtypes!r} gives {got} for dtype name {d!r}, must {'accept' if want else 'reject'}", {"dtypes": repr(dtypes), "dtype": d})
 
 
+def while_another_thread_checks(out):
+    """what a category accepts is a matter of the dtype alone — also WHILE another thread is in the middle of a check of
+    its own: parked inside the flattening of a PyTree (a registered node whose flatten function waits), inside a decorated
+    call, inside a leaf check. The verdicts of this thread are those it gets alone."""
+    import threading
+
+    import jax.numpy as jnp
+    import jax.tree_util as jtu
+    import numpy as np
+    from jaxtyping import Bool, Float, Int, PyTree, jaxtyped
+
+    gate_in, gate_go = threading.Event(), threading.Event()
+
+    class Parked:
+        pass
+
+    def flat(node):
+        gate_in.set()
+        gate_go.wait(30)
+        return (), None
+
+    try:
+        jtu.register_pytree_node(Parked, flat, lambda aux, ch: Parked())
+    except ValueError:
+        pass
+
+    class Half(jaxtyping.AbstractDtype):
+        dtypes = ["float16"]
+
+    rows = [("numpy int32 vs Float", np.zeros(2, np.int32), Float[np.ndarray, "..."], "F"), ("numpy float32 vs Float", np.zeros(2, np.float32), Float[np.ndarray, "..."], "T"),
+            ("numpy float32 vs Int", np.zeros(2, np.float32), Int[np.ndarray, "..."], "F"), ("jax bfloat16 vs Bool", jnp.zeros(2, jnp.bfloat16), Bool[jnp.ndarray, "..."], "F"),
+            ("jax bool vs Bool", jnp.zeros(2, bool), Bool[jnp.ndarray, "..."], "T"), ("duck int8 vs Float", envrows.DuckArr("int8"), Float[typing.Any, "..."], "F"),
+            ("duck float16 vs Half", envrows.DuckArr("float16"), Half[typing.Any, "..."], "T"), ("jax float32 vs Half", jnp.zeros(2, jnp.float32), Half[jnp.ndarray, "..."], "F")]
+
+    def verdicts():
+        return [impl.check_once(v, ann) for _, v, ann, _ in rows]
+
+    want = [w for *_, w in rows]
+    alone = verdicts()
+
+    def parked_in_flatten():
+        isinstance([np.zeros(2, np.float32), Parked()], PyTree[Float[np.ndarray, "..."]])
+
+    def parked_in_call():
+        @jaxtyped(typechecker=None)
+        def f(x):
+            isinstance(x, Float[np.ndarray, "n"])
+            gate_in.set()
+            gate_go.wait(30)
+
+        f(np.zeros(3, np.float32))
+
+    for wname, work in (("inside the flattening of a PyTree", parked_in_flatten), ("inside a decorated call", parked_in_call)):
+        gate_in.clear()
+        gate_go.clear()
+        t = threading.Thread(target=work, daemon=True)
+        t.start()
+        if not gate_in.wait(30):
+            out.count("other_thread_did_not_park")
+            gate_go.set()
+            continue
+        try:
+            during = verdicts()
+        finally:
+            gate_go.set()
+            t.join(30)
+        after = verdicts()
+        out.case(("while-another-thread", wname), True, sample={"other_thread": wname, "alone": alone, "during": during, "after": after})
+        for label, got in (("alone", alone), ("while another thread is " + wname, during), ("after it finished", after)):
+            if got != want:
+                k = next(i for i, (a, b) in enumerate(zip(got, want)) if a != b)
+                out.violation("while-another-thread:" + ("during" if "while" in label else label.split()[0]), f"{rows[k][0]}: {label} the check answers {got[k]}, the category says {want[k]} "
+                              f"(all rows: {got}, required {want})", {"while_another_thread": wname})
+                return
+
+
 def extra_coverage():
     return {"exhaustive": True}
 
 
 def replay(rep, out, drv, facts):
+    if "while_another_thread" in rep:
+        while_another_thread_checks(out)
+        return
     run("quick", 0, out, drv, facts)
